@@ -7,6 +7,7 @@ PRINTF_UNITS = vpdriver.libc_units(["stdio/sprintf.c", "stdlib/atol.c", "string/
 ]
 
 PROP = {
+    "ready": True,
     "harness": ["harness/C06.cpp"],
     "units": PRINTF_UNITS,
     "targets": [
